@@ -131,6 +131,16 @@ CLAIMS = {
         "model on the captured Richardson outputs reproduces value, error_estimate, final_step, index bit for bit. Partial: NaN handling "
         "is validated by the Float runs only (fields have no NaN); numpy axis semantics are modelled.",
    technique="Lean 4 proof of index bookkeeping / column-independence + bit-exact Float correspondence"),
+ 'C05': dict(
+   text="Lean model of the argument lists of every difference function of the four classes (Derivative, Jacobian/Gradient, Hessdiag, Hessian; "
+        "all methods incl. the sqrt(i) rules, central2, Ridout eq. 10, bicomplex), written with the code's float operations. Theorems for "
+        "every x, positive step and dimension: forward never below x / backward never above (scalar, Hessdiag, Hessian in every "
+        "coordinate); central in pairs symmetric about x; complex (first-derivative rule) and multicomplex keep the real part exactly x; "
+        "real-step points within 1 (2 for central2) steps; Jacobian/Hessdiag change exactly one coordinate, Hessian at most two, all "
+        "valid indices; the scalar quotients depend on f only through the listed points. Tie: every argument passed to the user function "
+        "by the real classes is recorded and the multiset equals the Float model's list bit for bit (all classes x methods x n<=6 x order<=8 "
+        "x dim<=5 x step generators), plus the number of evaluations at x itself.",
+   technique="Lean 4 proof of admissibility of the modelled point lists + bit-exact correspondence of recorded arguments"),
 }
 
 checks = []
